@@ -59,6 +59,92 @@ theorem count_eraseIdx_add {l : List Nat} {i a : Nat} (h : l[i]? = some a) (b : 
       simp [List.count_cons]
       omega
 
+/-! ### primitive effects -/
+
+theorem modifyAt_some {α} {l : List α} {i : Nat} {a : α} (f : α → α) (h : l[i]? = some a) :
+    modifyAt l i f = l.set i (f a) := by
+  simp [modifyAt, h]
+
+theorem set_eq_self {α} {l : List α} {i : Nat} {a : α} (h : l[i]? = some a) : l.set i a = l := by
+  obtain ⟨hi, hia⟩ := List.getElem?_eq_some_iff.1 h
+  subst hia
+  exact List.set_getElem_self hi
+
+theorem touch_eq_self (s : St) (b : Nat) (h : ∀ x, s.backends[b]? = some x → x.closes = 0) :
+    touch s b = s := by
+  unfold touch
+  rw [modifyAt_id]
+  intro a ha
+  simp [Backend.isOpen, h a ha]
+
+@[simp] theorem touch_wrappers (s : St) (b : Nat) : (touch s b).wrappers = s.wrappers := rfl
+
+theorem wrapperDbi_eq {s : St} {w : Nat} {wr : Wrapper} (h : s.wrappers[w]? = some wr) :
+    wrapperDbi s w = wr.dbi := by
+  simp [wrapperDbi, h]
+
+theorem pin_eq {s : St} {w : Nat} {wr : Wrapper} (h : s.wrappers[w]? = some wr) :
+    pin s w = { s with wrappers := s.wrappers.set w { wr with refCount := wr.refCount + 1 } } := by
+  simp [pin, h]
+
+theorem newReader_eq_pin {s : St} {w : Nat} {wr : Wrapper} {x : Backend}
+    (h : s.wrappers[w]? = some wr) (hx : s.backends[wr.dbi]? = some x) (hc : x.closes = 0) :
+    newReader s w = pin s w := by
+  rw [pin_eq h]
+  simp only [newReader, h]
+  apply touch_eq_self
+  intro y hy
+  simp only [hx] at hy
+  cases hy; exact hc
+
+theorem closeReader_eq_unref {s : St} {w : Nat} {wr : Wrapper} {x : Backend}
+    (h : s.wrappers[w]? = some wr) (hx : s.backends[wr.dbi]? = some x) (hc : x.closes = 0) :
+    closeReader s w = unref s w := by
+  simp only [closeReader, h]
+  rw [touch_eq_self]
+  intro y hy
+  simp only [hx] at hy
+  cases hy; exact hc
+
+theorem unref_eq {s : St} {w : Nat} {wr : Wrapper} {x : Backend}
+    (h : s.wrappers[w]? = some wr) (hx : s.backends[wr.dbi]? = some x) :
+    unref s w = { s with
+      wrappers := s.wrappers.set w { wr with refCount := wr.refCount - 1 }
+      backends := if wr.destroyable = true ∧ wr.refCount - 1 = 0
+        then s.backends.set wr.dbi { x with closes := x.closes + 1 } else s.backends } := by
+  simp only [unref, h]
+  split
+  · simp [closeBackend, modifyAt_some _ hx]
+  · rfl
+
+theorem destroy_eq {s : St} {w : Nat} {wr : Wrapper} {x : Backend}
+    (h : s.wrappers[w]? = some wr) (hx : s.backends[wr.dbi]? = some x) :
+    destroy s w = { s with
+      wrappers := s.wrappers.set w { wr with destroyable := true }
+      backends := if wr.refCount = 0
+        then s.backends.set wr.dbi { x with closes := x.closes + 1 } else s.backends } := by
+  simp only [destroy, h]
+  split
+  · simp [closeBackend, modifyAt_some _ hx]
+  · rfl
+
+theorem validate_eq_self {s : St} {w : Nat} {wr : Wrapper} {x : Backend}
+    (h : s.wrappers[w]? = some wr) (hx : s.backends[wr.dbi]? = some x) (hc : x.closes = 0)
+    (hd : wr.destroyable = false) : validate s w = s := by
+  have hwl : w < s.wrappers.length := (List.getElem?_eq_some_iff.1 h).1
+  unfold validate
+  simp only
+  rw [newReader_eq_pin h hx hc, pin_eq h]
+  have h' : ({ s with wrappers := s.wrappers.set w { wr with refCount := wr.refCount + 1 } } : St).wrappers[w]?
+      = some { wr with refCount := wr.refCount + 1 } := by simp [hwl]
+  rw [wrapperDbi_eq h', touch_eq_self _ _ (by intro y hy; simp only [hx] at hy; cases hy; exact hc)]
+  rw [closeReader_eq_unref h' hx hc, unref_eq h' hx]
+  cases s
+  cases wr
+  simp only at hd h ⊢
+  subst hd
+  simp [set_eq_self h]
+
 /-! ### the invariant -/
 
 /-- number of references held on wrapper `w`: readers plus still-running reload goroutines -/
@@ -72,17 +158,881 @@ structure Inv (s : St) : Prop where
   served_lt : s.served < s.wrappers.length
   readers_lt : ∀ r ∈ s.readers, r < s.wrappers.length
   pending_ok : ∀ p ∈ s.pending, ∃ wr : Wrapper, s.wrappers[p.w]? = some wr ∧ p.on = wr.dbi
-  dbi_lt : ∀ w wr, s.wrappers[w]? = some wr → wr.dbi < s.backends.length
-  rc : ∀ w wr, s.wrappers[w]? = some wr → wr.refCount = cnt s w
-  d1 : ∀ wr, s.wrappers[s.served]? = some wr → s.down = false → wr.destroyable = false
-  d2 : ∀ w wr, s.wrappers[w]? = some wr → 0 < wr.refCount → (s.down = true ∨ w ≠ s.served) →
+  dbi_lt : ∀ (w : Nat) (wr : Wrapper), s.wrappers[w]? = some wr → wr.dbi < s.backends.length
+  rc : ∀ (w : Nat) (wr : Wrapper), s.wrappers[w]? = some wr → wr.refCount = cnt s w
+  d1 : ∀ wr : Wrapper, s.wrappers[s.served]? = some wr → s.down = false → wr.destroyable = false
+  d2 : ∀ (w : Nat) (wr : Wrapper), s.wrappers[w]? = some wr → 0 < wr.refCount → (s.down = true ∨ w ≠ s.served) →
     wr.destroyable = true
-  h1 : ∀ w wr x, s.wrappers[w]? = some wr → s.backends[wr.dbi]? = some x → Holder s w wr →
+  h1 : ∀ (w : Nat) (wr : Wrapper) (x : Backend), s.wrappers[w]? = some wr → s.backends[wr.dbi]? = some x → Holder s w wr →
     x.closes = 0
-  uniq : ∀ w w' wr wr', s.wrappers[w]? = some wr → s.wrappers[w']? = some wr' → wr.dbi = wr'.dbi →
+  uniq : ∀ (w w' : Nat) (wr wr' : Wrapper), s.wrappers[w]? = some wr → s.wrappers[w']? = some wr' → wr.dbi = wr'.dbi →
     Holder s w wr → Holder s w' wr' → w = w'
-  safe : ∀ b (x : Backend), s.backends[b]? = some x → x.closes ≤ 1 ∧ x.badUses = 0
-  owned : ∀ b x, s.backends[b]? = some x → x.closes = 0 →
-    ∃ w wr, s.wrappers[w]? = some wr ∧ wr.dbi = b ∧ Holder s w wr
+  safe : ∀ (b : Nat) (x : Backend), s.backends[b]? = some x → x.closes ≤ 1 ∧ x.badUses = 0
+  owned : ∀ (b : Nat) (x : Backend), s.backends[b]? = some x → x.closes = 0 →
+    ∃ w : Nat, ∃ wr : Wrapper, s.wrappers[w]? = some wr ∧ wr.dbi = b ∧ Holder s w wr
+
+/-! ### abstract transitions preserving the invariant -/
+
+theorem Inv.unref_like {s s' : St} (h : Inv s) {w : Nat} {wr : Wrapper} {x : Backend}
+    (hw : s.wrappers[w]? = some wr) (hx : s.backends[wr.dbi]? = some x) (hpos : 0 < wr.refCount)
+    (hW : s'.wrappers = s.wrappers.set w { wr with refCount := wr.refCount - 1 })
+    (hB : s'.backends = if wr.destroyable = true ∧ wr.refCount - 1 = 0
+      then s.backends.set wr.dbi { x with closes := x.closes + 1 } else s.backends)
+    (hs : s'.served = s.served) (hd : s'.down = s.down)
+    (hr : ∀ r ∈ s'.readers, r ∈ s.readers) (hp : ∀ p ∈ s'.pending, p ∈ s.pending)
+    (hc : ∀ j, cnt s' j + (if j = w then 1 else 0) = cnt s j) : Inv s' := by
+  have hwl : w < s.wrappers.length := (List.getElem?_eq_some_iff.1 hw).1
+  have hbl : wr.dbi < s.backends.length := (List.getElem?_eq_some_iff.1 hx).1
+  have hWg : ∀ j, s'.wrappers[j]? = if j = w then some { wr with refCount := wr.refCount - 1 } else s.wrappers[j]? := by
+    intro j; rw [hW, List.getElem?_set]; grind
+  have hBg : ∀ b, s'.backends[b]? = if wr.destroyable = true ∧ wr.refCount - 1 = 0 ∧ b = wr.dbi
+      then some { x with closes := x.closes + 1 } else s.backends[b]? := by
+    intro b; rw [hB]; split <;> grind
+  have hWl : s'.wrappers.length = s.wrappers.length := by rw [hW]; simp
+  have hBl : s'.backends.length = s.backends.length := by rw [hB]; split <;> simp
+  have hH : Holder s w wr := Or.inl hpos
+  have hxc : x.closes = 0 := h.h1 w wr x hw hx hH
+  have hHold : ∀ j wrj wrj', s'.wrappers[j]? = some wrj' → s.wrappers[j]? = some wrj →
+      Holder s' j wrj' → Holder s j wrj := by
+    intro j wrj wrj' h1 h2 h3
+    have := hWg j
+    unfold Holder at *
+    grind
+  have hOld : ∀ j wrj, s'.wrappers[j]? = some wrj → ∃ o : Wrapper, s.wrappers[j]? = some o ∧
+      o.dbi = wrj.dbi ∧ (Holder s' j wrj → Holder s j o) := by
+    intro j wrj hj
+    have := hWg j
+    by_cases hjw : j = w
+    · subst hjw
+      refine ⟨wr, hw, ?_, fun _ => hH⟩
+      grind
+    · exact ⟨wrj, by grind, rfl, hHold j wrj wrj hj (by grind)⟩
+  clear hW hB
+  constructor
+  · rw [hWl, hs]; exact h.served_lt
+  · intro r hr'; rw [hWl]; exact h.readers_lt r (hr r hr')
+  · intro p hp'
+    obtain ⟨wr0, h1, h2⟩ := h.pending_ok p (hp p hp')
+    have := hWg p.w
+    grind
+  · intro j wrj hj
+    have := hWg j
+    have := h.dbi_lt j
+    grind
+  · intro j wrj hj
+    have := hWg j
+    have := h.rc j
+    have := hc j
+    grind
+  · intro wrj hj hdn
+    have := hWg s.served
+    have := h.d1
+    grind
+  · intro j wrj hj hp hh
+    have := hWg j
+    have := h.d2 j
+    grind
+  · intro j wrj y hj hy hH'
+    have e1 := hWg j
+    have e2 := hBg wrj.dbi
+    by_cases hjw : j = w
+    · subst hjw
+      have := h.d1 wr
+      unfold Holder at hH'
+      grind
+    · rw [if_neg hjw] at e1
+      have hHj := hHold j wrj wrj hj (e1 ▸ hj) hH'
+      have := h.uniq j w wrj wr (e1 ▸ hj) hw
+      have := h.h1 j wrj
+      grind
+  · intro j j' wrj wrj' hj hj' hdbi hH1 hH2
+    obtain ⟨o, ho1, ho2, ho3⟩ := hOld j wrj hj
+    obtain ⟨o', ho1', ho2', ho3'⟩ := hOld j' wrj' hj'
+    exact h.uniq j j' o o' ho1 ho1' (by omega) (ho3 hH1) (ho3' hH2)
+  · intro b y hy
+    have := hBg b
+    have := h.safe b
+    grind
+  · intro b y hy hy0
+    have e := hBg b
+    have hy' : s.backends[b]? = some y := by grind
+    obtain ⟨j, wrj, hj, hdb, hHj⟩ := h.owned b y hy' hy0
+    by_cases hjw : j = w
+    · subst hjw
+      refine ⟨j, { wr with refCount := wr.refCount - 1 }, by grind, by grind, ?_⟩
+      have := h.d2 j wr hw hpos
+      unfold Holder at *
+      grind
+    · refine ⟨j, wrj, by grind, hdb, ?_⟩
+      unfold Holder at *
+      grind
+
+
+theorem Inv.pin_like {s s' : St} (h : Inv s) {wr : Wrapper} (hdn : s.down = false)
+    (hw : s.wrappers[s.served]? = some wr)
+    (hW : s'.wrappers = s.wrappers.set s.served { wr with refCount := wr.refCount + 1 })
+    (hB : s'.backends = s.backends) (hs : s'.served = s.served) (hd : s'.down = s.down)
+    (hr : ∀ r ∈ s'.readers, r ∈ s.readers ∨ r = s.served)
+    (hp : ∀ p ∈ s'.pending, p ∈ s.pending ∨ (p.w = s.served ∧ p.on = wr.dbi))
+    (hc : ∀ j, cnt s' j = cnt s j + (if j = s.served then 1 else 0)) : Inv s' := by
+  have hwl : s.served < s.wrappers.length := h.served_lt
+  have hWg : ∀ j, s'.wrappers[j]? = if j = s.served then some { wr with refCount := wr.refCount + 1 } else s.wrappers[j]? := by
+    intro j; rw [hW, List.getElem?_set]; grind
+  have hWl : s'.wrappers.length = s.wrappers.length := by rw [hW]; simp
+  have hOld : ∀ j wrj, s'.wrappers[j]? = some wrj → ∃ o : Wrapper, s.wrappers[j]? = some o ∧
+      o.dbi = wrj.dbi ∧ (Holder s' j wrj → Holder s j o) := by
+    intro j wrj hj
+    have := hWg j
+    by_cases hjw : j = s.served
+    · subst hjw
+      refine ⟨wr, hw, by grind, fun _ => Or.inr ⟨hdn, rfl⟩⟩
+    · refine ⟨wrj, by grind, rfl, ?_⟩
+      unfold Holder; grind
+  clear hW
+  constructor
+  · rw [hWl, hs]; exact h.served_lt
+  · intro r hr'; rw [hWl]
+    rcases hr r hr' with h1 | h1
+    · exact h.readers_lt r h1
+    · rw [h1]; exact hwl
+  · intro p hp'
+    have := hWg p.w
+    rcases hp p hp' with h1 | ⟨h1, h2⟩
+    · obtain ⟨wr0, h3, h4⟩ := h.pending_ok p h1
+      grind
+    · grind
+  · intro j wrj hj
+    obtain ⟨o, ho1, ho2, _⟩ := hOld j wrj hj
+    rw [hB, ← ho2]; exact h.dbi_lt j o ho1
+  · intro j wrj hj
+    have := hWg j
+    have := h.rc j
+    have := hc j
+    grind
+  · intro wrj hj hdn
+    have := hWg s.served
+    have := h.d1
+    grind
+  · intro j wrj hj hp hh
+    have := hWg j
+    have := h.d2 j
+    grind
+  · intro j wrj y hj hy hH'
+    obtain ⟨o, ho1, ho2, ho3⟩ := hOld j wrj hj
+    rw [hB, ← ho2] at hy
+    exact h.h1 j o y ho1 hy (ho3 hH')
+  · intro j j' wrj wrj' hj hj' hdbi hH1 hH2
+    obtain ⟨o, ho1, ho2, ho3⟩ := hOld j wrj hj
+    obtain ⟨o', ho1', ho2', ho3'⟩ := hOld j' wrj' hj'
+    exact h.uniq j j' o o' ho1 ho1' (by omega) (ho3 hH1) (ho3' hH2)
+  · intro b y hy
+    rw [hB] at hy
+    exact h.safe b y hy
+  · intro b y hy hy0
+    rw [hB] at hy
+    obtain ⟨j, wrj, hj, hdb, hHj⟩ := h.owned b y hy hy0
+    have := hWg j
+    by_cases hjw : j = s.served
+    · subst hjw
+      refine ⟨s.served, { wr with refCount := wr.refCount + 1 }, by grind, by grind, Or.inl (by simp)⟩
+    · refine ⟨j, wrj, by grind, hdb, ?_⟩
+      unfold Holder at *
+      grind
+
+/-- a backend that is opened and closed at once -/
+theorem Inv.open_close {s s' : St} (h : Inv s)
+    (hB : s'.backends = s.backends ++ [{ closes := 1 }])
+    (hW : s'.wrappers = s.wrappers) (hs : s'.served = s.served) (hd : s'.down = s.down)
+    (hr : s'.readers = s.readers) (hp : s'.pending = s.pending) : Inv s' := by
+  have hc : ∀ j, cnt s' j = cnt s j := by intro j; simp [cnt, hr, hp]
+  have hH : ∀ j wrj, Holder s' j wrj ↔ Holder s j wrj := by intro j wrj; simp [Holder, hs, hd]
+  have hBg : ∀ (b : Nat) (y : Backend), s'.backends[b]? = some y → s.backends[b]? = some y ∨ y.closes = 1 := by
+    intro b y hy
+    rw [hB, List.getElem?_append] at hy
+    grind
+  have hBo : ∀ (b : Nat) (y : Backend), s.backends[b]? = some y → s'.backends[b]? = some y := by
+    intro b y hy
+    rw [hB, List.getElem?_append]
+    grind
+  constructor
+  · rw [hW, hs]; exact h.served_lt
+  · rw [hW, hr]; exact h.readers_lt
+  · rw [hW, hp]; exact h.pending_ok
+  · intro j wrj hj
+    rw [hW] at hj
+    have := h.dbi_lt j wrj hj
+    rw [hB]; simp; omega
+  · intro j wrj hj
+    rw [hW] at hj
+    rw [hc]; exact h.rc j wrj hj
+  · rw [hW, hs, hd]; exact h.d1
+  · rw [hW, hs, hd]; exact h.d2
+  · intro j wrj y hj hy hH'
+    rw [hW] at hj
+    have hlt := h.dbi_lt j wrj hj
+    obtain ⟨y0, hy0⟩ : ∃ y0, s.backends[wrj.dbi]? = some y0 := ⟨_, List.getElem?_eq_getElem hlt⟩
+    have := hBo _ _ hy0
+    rw [hy] at this
+    cases this
+    exact h.h1 j wrj y hj hy0 ((hH j wrj).1 hH')
+  · intro j j' wrj wrj' hj hj' hdbi hH1 hH2
+    rw [hW] at hj hj'
+    exact h.uniq j j' wrj wrj' hj hj' hdbi ((hH _ _).1 hH1) ((hH _ _).1 hH2)
+  · intro b y hy
+    rcases hBg b y hy with h1 | h1
+    · exact h.safe b y h1
+    · rw [hB, List.getElem?_append] at hy
+      have := h.safe b
+      grind
+  · intro b y hy hy0
+    rcases hBg b y hy with h1 | h1
+    · obtain ⟨j, wrj, hj, hdb, hHj⟩ := h.owned b y h1 hy0
+      exact ⟨j, wrj, by rw [hW]; exact hj, hdb, (hH _ _).2 hHj⟩
+    · omega
+
+/-- a wrapper nobody refers to is added (catch-up candidates, rejected candidates) -/
+theorem Inv.add_idle {s s' : St} (h : Inv s) {d : Nat} {de : Bool} (hdl : d < s.backends.length)
+    (hW : s'.wrappers = s.wrappers ++ [{ dbi := d, refCount := 0, destroyable := de }])
+    (hB : s'.backends = s.backends) (hs : s'.served = s.served) (hd : s'.down = s.down)
+    (hr : s'.readers = s.readers) (hp : s'.pending = s.pending) : Inv s' := by
+  have hc : ∀ j, cnt s' j = cnt s j := by intro j; simp [cnt, hr, hp]
+  have hH : ∀ j wrj, Holder s' j wrj ↔ Holder s j wrj := by intro j wrj; simp [Holder, hs, hd]
+  have hsl := h.served_lt
+  have hWo : ∀ (j : Nat) (wrj : Wrapper), s.wrappers[j]? = some wrj → s'.wrappers[j]? = some wrj := by
+    intro j wrj hj
+    rw [hW, List.getElem?_append]
+    grind
+  have hWg : ∀ (j : Nat) (wrj : Wrapper), s'.wrappers[j]? = some wrj → s.wrappers[j]? = some wrj ∨
+      (j = s.wrappers.length ∧ wrj = { dbi := d, refCount := 0, destroyable := de }) := by
+    intro j wrj hj
+    rw [hW, List.getElem?_append] at hj
+    grind
+  have hc0 : cnt s s.wrappers.length = 0 := by
+    unfold cnt
+    have h1 : s.readers.count s.wrappers.length = 0 := by
+      rw [List.count_eq_zero]
+      intro hm
+      exact Nat.lt_irrefl _ (h.readers_lt _ hm)
+    have h2 : (s.pending.map (·.w)).count s.wrappers.length = 0 := by
+      rw [List.count_eq_zero]
+      intro hm
+      obtain ⟨p, hp1, hp2⟩ := List.mem_map.1 hm
+      obtain ⟨wr0, h3, _⟩ := h.pending_ok p hp1
+      have := (List.getElem?_eq_some_iff.1 h3).1
+      omega
+    omega
+  constructor
+  · rw [hW, hs]; simp; omega
+  · intro r hr'
+    rw [hr] at hr'
+    have := h.readers_lt r hr'
+    rw [hW]; simp; omega
+  · intro p hp'
+    rw [hp] at hp'
+    obtain ⟨wr0, h3, h4⟩ := h.pending_ok p hp'
+    exact ⟨wr0, hWo _ _ h3, h4⟩
+  · intro j wrj hj
+    rw [hB]
+    rcases hWg j wrj hj with h1 | ⟨h1, h2⟩
+    · exact h.dbi_lt j wrj h1
+    · subst h2; exact hdl
+  · intro j wrj hj
+    rw [hc]
+    rcases hWg j wrj hj with h1 | ⟨h1, h2⟩
+    · exact h.rc j wrj h1
+    · subst h2 h1; simp [hc0]
+  · intro wrj hj
+    rw [hs] at hj; rw [hd]
+    rcases hWg _ wrj hj with h1 | ⟨h1, h2⟩
+    · exact h.d1 wrj h1
+    · omega
+  · intro j wrj hj
+    rw [hs, hd]
+    rcases hWg _ wrj hj with h1 | ⟨h1, h2⟩
+    · exact h.d2 j wrj h1
+    · subst h2; simp
+  · intro j wrj y hj hy hH'
+    rw [hB] at hy
+    rcases hWg _ wrj hj with h1 | ⟨h1, h2⟩
+    · exact h.h1 j wrj y h1 hy ((hH _ _).1 hH')
+    · subst h2
+      unfold Holder at hH'
+      simp at hH'
+      omega
+  · intro j j' wrj wrj' hj hj' hdbi hH1 hH2
+    have hno : ∀ (j : Nat) (wrj : Wrapper), s'.wrappers[j]? = some wrj → Holder s' j wrj → s.wrappers[j]? = some wrj := by
+      intro j wrj hj hH'
+      rcases hWg _ wrj hj with h1 | ⟨h1, h2⟩
+      · exact h1
+      · subst h2
+        unfold Holder at hH'
+        simp at hH'
+        omega
+    exact h.uniq j j' wrj wrj' (hno _ _ hj hH1) (hno _ _ hj' hH2) hdbi ((hH _ _).1 hH1) ((hH _ _).1 hH2)
+  · rw [hB]; exact h.safe
+  · intro b y hy hy0
+    rw [hB] at hy
+    obtain ⟨j, wrj, hj, hdb, hHj⟩ := h.owned b y hy hy0
+    exact ⟨j, wrj, hWo _ _ hj, hdb, (hH _ _).2 hHj⟩
+
+
+/-- `Destroy` of the served wrapper at shutdown -/
+theorem Inv.shutdown_like {s s' : St} (h : Inv s) (hdn : s.down = false) {wr : Wrapper} {x : Backend}
+    (hw : s.wrappers[s.served]? = some wr) (hx : s.backends[wr.dbi]? = some x)
+    (hW : s'.wrappers = s.wrappers.set s.served { wr with destroyable := true })
+    (hB : s'.backends = if wr.refCount = 0
+      then s.backends.set wr.dbi { x with closes := x.closes + 1 } else s.backends)
+    (hs : s'.served = s.served) (hd : s'.down = true)
+    (hr : s'.readers = s.readers) (hp : s'.pending = s.pending) : Inv s' := by
+  have hc : ∀ j, cnt s' j = cnt s j := by intro j; simp [cnt, hr, hp]
+  have hwl : s.served < s.wrappers.length := h.served_lt
+  have hbl : wr.dbi < s.backends.length := (List.getElem?_eq_some_iff.1 hx).1
+  have hWg : ∀ j, s'.wrappers[j]? = if j = s.served then some { wr with destroyable := true } else s.wrappers[j]? := by
+    intro j; rw [hW, List.getElem?_set]; grind
+  have hBg : ∀ b, s'.backends[b]? = if wr.refCount = 0 ∧ b = wr.dbi
+      then some { x with closes := x.closes + 1 } else s.backends[b]? := by
+    intro b; rw [hB]; split <;> grind
+  have hWl : s'.wrappers.length = s.wrappers.length := by rw [hW]; simp
+  have hBl : s'.backends.length = s.backends.length := by rw [hB]; split <;> simp
+  have hH : Holder s s.served wr := Or.inr ⟨hdn, rfl⟩
+  have hxc : x.closes = 0 := h.h1 _ wr x hw hx hH
+  have hOld : ∀ j wrj, s'.wrappers[j]? = some wrj → ∃ o : Wrapper, s.wrappers[j]? = some o ∧
+      o.dbi = wrj.dbi ∧ o.refCount = wrj.refCount ∧ (Holder s' j wrj → Holder s j o) := by
+    intro j wrj hj
+    have := hWg j
+    by_cases hjw : j = s.served
+    · subst hjw
+      refine ⟨wr, hw, by grind, by grind, fun _ => hH⟩
+    · refine ⟨wrj, by grind, rfl, rfl, ?_⟩
+      unfold Holder; grind
+  clear hW hB
+  constructor
+  · rw [hWl, hs]; exact h.served_lt
+  · intro r hr'; rw [hWl]; rw [hr] at hr'; exact h.readers_lt r hr'
+  · intro p hp'
+    rw [hp] at hp'
+    obtain ⟨wr0, h1, h2⟩ := h.pending_ok p hp'
+    have := hWg p.w
+    grind
+  · intro j wrj hj
+    obtain ⟨o, ho1, ho2, _⟩ := hOld j wrj hj
+    rw [hBl, ← ho2]; exact h.dbi_lt j o ho1
+  · intro j wrj hj
+    obtain ⟨o, ho1, _, ho2, _⟩ := hOld j wrj hj
+    rw [hc, ← ho2]; exact h.rc j o ho1
+  · intro wrj hj hdn'
+    rw [hd] at hdn'; cases hdn'
+  · intro j wrj hj hp hh
+    have := hWg j
+    have := h.d2 j
+    grind
+  · intro j wrj y hj hy hH'
+    obtain ⟨o, ho1, ho2, ho3, ho4⟩ := hOld j wrj hj
+    have e2 := hBg wrj.dbi
+    have := h.uniq j s.served o wr ho1 hw
+    have := h.h1 j o y ho1
+    have := ho4 hH'
+    unfold Holder at hH'
+    grind
+  · intro j j' wrj wrj' hj hj' hdbi hH1 hH2
+    obtain ⟨o, ho1, ho2, _, ho3⟩ := hOld j wrj hj
+    obtain ⟨o', ho1', ho2', _, ho3'⟩ := hOld j' wrj' hj'
+    exact h.uniq j j' o o' ho1 ho1' (by omega) (ho3 hH1) (ho3' hH2)
+  · intro b y hy
+    have := hBg b
+    have := h.safe b
+    grind
+  · intro b y hy hy0
+    have e := hBg b
+    have hy' : s.backends[b]? = some y := by grind
+    obtain ⟨j, wrj, hj, hdb, hHj⟩ := h.owned b y hy' hy0
+    by_cases hjw : j = s.served
+    · subst hjw
+      refine ⟨s.served, { wr with destroyable := true }, by grind, by grind, ?_⟩
+      unfold Holder at *
+      grind
+    · refine ⟨j, wrj, by grind, hdb, ?_⟩
+      unfold Holder at *
+      grind
+
+/-- a new backend is opened, wrapped, and replaces the served wrapper, which is destroyed -/
+theorem Inv.switch_like {s s' : St} (h : Inv s) (hdn : s.down = false) {wr : Wrapper} {x : Backend}
+    (hw : s.wrappers[s.served]? = some wr) (hx : s.backends[wr.dbi]? = some x)
+    (hW : s'.wrappers = (s.wrappers ++ [({ dbi := s.backends.length } : Wrapper)]).set s.served
+      { wr with destroyable := true })
+    (hB : s'.backends = if wr.refCount = 0
+      then (s.backends ++ [({} : Backend)]).set wr.dbi { x with closes := x.closes + 1 } else s.backends ++ [({} : Backend)])
+    (hs : s'.served = s.wrappers.length) (hd : s'.down = false)
+    (hr : s'.readers = s.readers) (hp : s'.pending = s.pending) : Inv s' := by
+  have hc : ∀ j, cnt s' j = cnt s j := by intro j; simp [cnt, hr, hp]
+  have hwl : s.served < s.wrappers.length := h.served_lt
+  have hbl : wr.dbi < s.backends.length := (List.getElem?_eq_some_iff.1 hx).1
+  have hWg : ∀ j, s'.wrappers[j]? = if j = s.served then some { wr with destroyable := true }
+      else if j = s.wrappers.length then some ({ dbi := s.backends.length } : Wrapper) else s.wrappers[j]? := by
+    intro j; rw [hW, List.getElem?_set, List.getElem?_append]; grind
+  have hBg : ∀ b, s'.backends[b]? = if wr.refCount = 0 ∧ b = wr.dbi
+      then some { x with closes := x.closes + 1 }
+      else if b = s.backends.length then some ({} : Backend) else s.backends[b]? := by
+    intro b; rw [hB]; split <;> grind
+  have hWl : s'.wrappers.length = s.wrappers.length + 1 := by rw [hW]; simp
+  have hBl : s'.backends.length = s.backends.length + 1 := by rw [hB]; split <;> simp
+  have hH : Holder s s.served wr := Or.inr ⟨hdn, rfl⟩
+  have hxc : x.closes = 0 := h.h1 _ wr x hw hx hH
+  have hc0 : cnt s s.wrappers.length = 0 := by
+    unfold cnt
+    have h1 : s.readers.count s.wrappers.length = 0 := by
+      rw [List.count_eq_zero]
+      intro hm
+      exact Nat.lt_irrefl _ (h.readers_lt _ hm)
+    have h2 : (s.pending.map (·.w)).count s.wrappers.length = 0 := by
+      rw [List.count_eq_zero]
+      intro hm
+      obtain ⟨p, hp1, hp2⟩ := List.mem_map.1 hm
+      obtain ⟨wr0, h3, _⟩ := h.pending_ok p hp1
+      have := (List.getElem?_eq_some_iff.1 h3).1
+      omega
+    omega
+  -- every wrapper of `s'` is the new one or an old one with the same backend and reference count
+  have hOld : ∀ j wrj, s'.wrappers[j]? = some wrj →
+      (j = s.wrappers.length ∧ wrj = ({ dbi := s.backends.length } : Wrapper)) ∨
+      (j < s.wrappers.length ∧ ∃ o : Wrapper, s.wrappers[j]? = some o ∧
+        o.dbi = wrj.dbi ∧ o.refCount = wrj.refCount ∧ (0 < wrj.refCount → Holder s j o)) := by
+    intro j wrj hj
+    have := hWg j
+    by_cases hjw : j = s.served
+    · subst hjw
+      exact Or.inr ⟨hwl, wr, hw, by grind, by grind, fun _ => hH⟩
+    · by_cases hjn : j = s.wrappers.length
+      · left; grind
+      · right
+        have : s.wrappers[j]? = some wrj := by grind
+        exact ⟨(List.getElem?_eq_some_iff.1 this).1, wrj, this, rfl, rfl, fun hp => Or.inl hp⟩
+  clear hW hB
+  constructor
+  · rw [hWl, hs]; omega
+  · intro r hr'; rw [hWl]; rw [hr] at hr'; have := h.readers_lt r hr'; omega
+  · intro p hp'
+    rw [hp] at hp'
+    obtain ⟨wr0, h1, h2⟩ := h.pending_ok p hp'
+    have := hWg p.w
+    have := (List.getElem?_eq_some_iff.1 h1).1
+    grind
+  · intro j wrj hj
+    rw [hBl]
+    rcases hOld j wrj hj with ⟨_, h2⟩ | ⟨_, o, ho1, ho2, _⟩
+    · subst h2; simp
+    · have := h.dbi_lt j o ho1; omega
+  · intro j wrj hj
+    rw [hc]
+    rcases hOld j wrj hj with ⟨h1, h2⟩ | ⟨_, o, ho1, _, ho2, _⟩
+    · subst h2 h1; simp [hc0]
+    · rw [← ho2]; exact h.rc j o ho1
+  · intro wrj hj _
+    have := hWg s'.served
+    grind
+  · intro j wrj hj hp hh
+    have := hWg j
+    have := h.d2 j
+    grind
+  · intro j wrj y hj hy hH'
+    have e2 := hBg wrj.dbi
+    rcases hOld j wrj hj with ⟨h1, h2⟩ | ⟨hlt, o, ho1, ho2, ho3, ho4⟩
+    · subst h2; grind
+    · have := h.uniq j s.served o wr ho1 hw
+      have := h.h1 j o y ho1
+      have := h.dbi_lt j o ho1
+      unfold Holder at hH'
+      grind
+  · intro j j' wrj wrj' hj hj' hdbi hH1 hH2
+    rcases hOld j wrj hj with ⟨h1, h2⟩ | ⟨hlt, o, ho1, ho2, ho3, ho4⟩ <;>
+    rcases hOld j' wrj' hj' with ⟨h1', h2'⟩ | ⟨hlt', o', ho1', ho2', ho3', ho4'⟩
+    · omega
+    · have := h.dbi_lt j' o' ho1'
+      subst h2; simp at hdbi; omega
+    · have := h.dbi_lt j o ho1
+      subst h2'; simp at hdbi; omega
+    · unfold Holder at hH1 hH2
+      exact h.uniq j j' o o' ho1 ho1' (by omega) (ho4 (by omega)) (ho4' (by omega))
+  · intro b y hy
+    have := hBg b
+    have := h.safe b
+    grind
+  · intro b y hy hy0
+    have e := hBg b
+    by_cases hbn : b = s.backends.length
+    · refine ⟨s.wrappers.length, ({ dbi := s.backends.length } : Wrapper), by have := hWg s.wrappers.length; grind,
+        hbn.symm, Or.inr ⟨hd, hs.symm⟩⟩
+    · have hy' : s.backends[b]? = some y := by grind
+      obtain ⟨j, wrj, hj, hdb, hHj⟩ := h.owned b y hy' hy0
+      have hjl := (List.getElem?_eq_some_iff.1 hj).1
+      have := hWg j
+      by_cases hjw : j = s.served
+      · subst hjw
+        refine ⟨s.served, { wr with destroyable := true }, by grind, by grind, ?_⟩
+        unfold Holder at *
+        grind
+      · refine ⟨j, wrj, by grind, hdb, ?_⟩
+        unfold Holder at *
+        grind
+
+/-! ### the operations preserve the invariant -/
+
+theorem Inv.backend_of {s : St} (h : Inv s) {w : Nat} {wr : Wrapper} (hw : s.wrappers[w]? = some wr) :
+    ∃ x, s.backends[wr.dbi]? = some x :=
+  ⟨_, List.getElem?_eq_getElem (h.dbi_lt w wr hw)⟩
+
+theorem Inv.served_wr {s : St} (h : Inv s) :
+    ∃ wr x, s.wrappers[s.served]? = some wr ∧ s.backends[wr.dbi]? = some x ∧
+      (s.down = false → x.closes = 0) := by
+  obtain ⟨wr, hw⟩ : ∃ wr, s.wrappers[s.served]? = some wr :=
+    ⟨_, List.getElem?_eq_getElem h.served_lt⟩
+  obtain ⟨x, hx⟩ := h.backend_of hw
+  exact ⟨wr, x, hw, hx, fun hd => h.h1 _ _ x hw hx (Or.inr ⟨hd, rfl⟩)⟩
+
+theorem Inv.reader_wr {s : St} (h : Inv s) {r : Nat} (hr : r ∈ s.readers) :
+    ∃ wr x, s.wrappers[r]? = some wr ∧ s.backends[wr.dbi]? = some x ∧ x.closes = 0 ∧
+      0 < wr.refCount := by
+  obtain ⟨wr, hw⟩ : ∃ wr, s.wrappers[r]? = some wr :=
+    ⟨_, List.getElem?_eq_getElem (h.readers_lt r hr)⟩
+  obtain ⟨x, hx⟩ := h.backend_of hw
+  have hpos : 0 < wr.refCount := by
+    rw [h.rc r _ hw]
+    unfold cnt
+    have := List.count_pos_iff.2 hr
+    omega
+  exact ⟨wr, x, hw, hx, h.h1 _ _ x hw hx (Or.inl hpos), hpos⟩
+
+theorem Inv.pending_wr {s : St} (h : Inv s) {p : Pending} (hp : p ∈ s.pending) :
+    ∃ wr x, s.wrappers[p.w]? = some wr ∧ p.on = wr.dbi ∧ s.backends[wr.dbi]? = some x ∧
+      x.closes = 0 ∧ 0 < wr.refCount := by
+  obtain ⟨wr, hw, hon⟩ := h.pending_ok p hp
+  obtain ⟨x, hx⟩ := h.backend_of hw
+  have hpos : 0 < wr.refCount := by
+    rw [h.rc _ _ hw]
+    unfold cnt
+    have : p.w ∈ s.pending.map (·.w) := List.mem_map.2 ⟨p, hp, rfl⟩
+    have := List.count_pos_iff.2 this
+    omega
+  exact ⟨wr, x, hw, hon, hx, h.h1 _ _ x hw hx (Or.inl hpos), hpos⟩
+
+theorem inv_init : Inv {} := by
+  constructor
+  · decide
+  · simp
+  · simp
+  · intro w wr hw
+    cases w <;> simp at hw
+    subst hw; decide
+  · intro w wr hw
+    cases w <;> simp at hw
+    subst hw; decide
+  · intro wr hw _
+    simp at hw
+    subst hw; rfl
+  · intro w wr hw hp
+    cases w <;> simp at hw
+    subst hw; simp at hp
+  · intro w wr x hw hx _
+    cases w <;> simp at hw
+    subst hw; simp at hx
+    subst hx; rfl
+  · intro w w' wr wr' hw hw' _ _ _
+    cases w <;> cases w' <;> simp at hw hw'
+    rfl
+  · intro b x hx
+    cases b <;> simp at hx
+    subst hx; decide
+  · intro b x hx _
+    cases b <;> simp at hx
+    exact ⟨0, { dbi := 0 }, rfl, rfl, Or.inr ⟨rfl, rfl⟩⟩
+
+theorem inv_acquire {s : St} (h : Inv s) : Inv (step s .acquire) := by
+  unfold step
+  simp only
+  split
+  · exact h
+  · rename_i hdn
+    simp only [Bool.not_eq_true] at hdn
+    obtain ⟨wr, x, hw, hx, hc⟩ := h.served_wr
+    rw [newReader_eq_pin hw hx (hc hdn), pin_eq hw]
+    refine h.pin_like hdn hw rfl rfl rfl rfl ?_ ?_ ?_
+    · intro r hr; simpa using hr
+    · intro p hp; exact Or.inl hp
+    · intro j
+      simp only [cnt, List.count_append, List.count_singleton]
+      by_cases hj : j = s.served
+      · subst hj; simp; omega
+      · have : ¬ s.served = j := fun e => hj e.symm
+        simp [hj, this]
+
+theorem inv_use {s : St} (h : Inv s) (i : Nat) : Inv (step s (.use i)) := by
+  unfold step
+  simp only
+  split
+  · exact h
+  · rename_i w hw
+    have hm : w ∈ s.readers := List.mem_iff_getElem?.2 ⟨i, hw⟩
+    obtain ⟨wr, x, hw', hx, hc, _⟩ := h.reader_wr hm
+    rw [wrapperDbi_eq hw', touch_eq_self]
+    · exact h
+    · intro y hy; rw [hx] at hy; cases hy; exact hc
+
+theorem inv_release {s : St} (h : Inv s) (i : Nat) : Inv (step s (.release i)) := by
+  unfold step
+  simp only
+  split
+  · exact h
+  · rename_i w hw
+    have hm : w ∈ s.readers := List.mem_iff_getElem?.2 ⟨i, hw⟩
+    obtain ⟨wr, x, hw', hx, hc, hpos⟩ := h.reader_wr hm
+    rw [closeReader_eq_unref hw' hx hc, unref_eq hw' hx]
+    refine h.unref_like hw' hx hpos rfl rfl rfl rfl ?_ ?_ ?_
+    · intro r hr; exact List.mem_of_mem_eraseIdx hr
+    · intro p hp; exact hp
+    · intro j
+      have := count_eraseIdx_add hw j
+      simp only [cnt]
+      omega
+
+
+theorem set_append_length {α} (l : List α) (a b : α) : (l ++ [a]).set l.length b = l ++ [b] := by
+  induction l with
+  | nil => rfl
+  | cons c l ih => simp [ih]
+
+theorem inv_shutdown {s : St} (h : Inv s) : Inv (step s .shutdown) := by
+  unfold step
+  simp only
+  split
+  · exact h
+  · rename_i hdn
+    simp only [Bool.not_eq_true] at hdn
+    obtain ⟨wr, x, hw, hx, hc⟩ := h.served_wr
+    rw [destroy_eq hw hx]
+    exact h.shutdown_like hdn hw hx rfl rfl rfl rfl rfl rfl
+
+theorem inv_timeoutPending {s : St} (h : Inv s) (k : Late) :
+    Inv (step s (.reloadTimeoutPending k)) := by
+  unfold step
+  simp only
+  split
+  · exact h
+  · rename_i hdn
+    simp only [Bool.not_eq_true] at hdn
+    obtain ⟨wr, x, hw, hx, hc⟩ := h.served_wr
+    rw [pin_eq hw, wrapperDbi_eq hw]
+    refine h.pin_like hdn hw rfl rfl rfl rfl ?_ ?_ ?_
+    · intro r hr; exact Or.inl hr
+    · intro p hp
+      simp only [List.mem_append, List.mem_singleton] at hp
+      rcases hp with hp | hp
+      · exact Or.inl hp
+      · subst hp; exact Or.inr ⟨rfl, rfl⟩
+    · intro j
+      simp only [cnt, List.map_append, List.count_append, List.map_cons, List.map_nil,
+        List.count_singleton]
+      by_cases hj : j = s.served
+      · subst hj; simp; omega
+      · have : ¬ s.served = j := fun e => hj e.symm
+        simp [hj, this]
+
+theorem inv_timeoutDoneNew {s : St} (h : Inv s) : Inv (step s .reloadTimeoutDoneNew) := by
+  unfold step
+  simp only
+  split
+  · exact h
+  · refine h.open_close ?_ rfl rfl rfl rfl rfl
+    simp only [openBackend, closeBackend]
+    rw [modifyAt_some _ (List.getElem?_concat_length), set_append_length]
+
+
+/-- the oldest pending goroutine drops its reference -/
+theorem Inv.late_unref {s : St} (h : Inv s) {p : Pending} {rest : List Pending}
+    (hp : s.pending = p :: rest) : Inv (unref { s with pending := rest } p.w) := by
+  have hm : p ∈ s.pending := by rw [hp]; simp
+  obtain ⟨wr, x, hw, hon, hx, hc, hpos⟩ := h.pending_wr hm
+  have hw' : ({ s with pending := rest } : St).wrappers[p.w]? = some wr := hw
+  have hx' : ({ s with pending := rest } : St).backends[wr.dbi]? = some x := hx
+  rw [unref_eq hw' hx']
+  refine h.unref_like hw hx hpos rfl rfl rfl rfl ?_ ?_ ?_
+  · intro r hr; exact hr
+  · intro q hq; rw [hp]; exact List.mem_cons_of_mem _ hq
+  · intro j
+    simp only [cnt, hp, List.map_cons, List.count_cons]
+    by_cases hj : j = p.w
+    · subst hj; simp; omega
+    · have : ¬ p.w = j := fun e => hj e.symm
+      simp [hj, this]
+
+theorem inv_lateComplete {s : St} (h : Inv s) : Inv (step s .lateComplete) := by
+  unfold step
+  simp only
+  split
+  · exact h
+  · rename_i p rest hp
+    have hm : p ∈ s.pending := by rw [hp]; simp
+    split
+    · -- new
+      refine (h.late_unref hp).open_close ?_ rfl rfl rfl rfl rfl
+      simp only [openBackend, closeBackend]
+      rw [modifyAt_some _ (List.getElem?_concat_length), set_append_length]
+    · -- same
+      obtain ⟨wr, x, hw, hon, hx, hc, hpos⟩ := h.pending_wr hm
+      rw [touch_eq_self]
+      · exact h.late_unref hp
+      · intro y hy
+        have : s.backends[p.on]? = some y := hy
+        rw [hon, hx] at this
+        cases this; exact hc
+    · exact h.late_unref hp
+
+
+/-- catch-up reload: whatever the validation says, only an idle wrapper is added -/
+theorem inv_reloadSame {s : St} (h : Inv s) (hdn : s.down = false) (keyOk : Bool) :
+    Inv (reloadReturned (touch s (wrapperDbi s s.served)) (wrapperDbi s s.served) keyOk) := by
+  obtain ⟨wr, x, hw, hx, hc⟩ := h.served_wr
+  have hc := hc hdn
+  rw [wrapperDbi_eq hw, touch_eq_self _ _ (by intro y hy; rw [hx] at hy; cases hy; exact hc)]
+  have hv : validate { s with wrappers := s.wrappers ++ [{ dbi := wr.dbi }] } s.wrappers.length
+      = { s with wrappers := s.wrappers ++ [{ dbi := wr.dbi }] } :=
+    validate_eq_self (wr := { dbi := wr.dbi }) (x := x) List.getElem?_concat_length hx hc rfl
+  have : reloadReturned s wr.dbi keyOk = { s with wrappers := s.wrappers ++ [{ dbi := wr.dbi }] } := by
+    unfold reloadReturned
+    simp only [addWrapper, wrapperDbi_eq hw, hv, ne_eq, not_true_eq_false, if_false, ite_self]
+  rw [this]
+  exact h.add_idle (d := wr.dbi) (de := false) (h.dbi_lt _ _ hw) rfl rfl rfl rfl rfl rfl
+
+theorem inv_reloadNew {s : St} (h : Inv s) (hdn : s.down = false) (keyOk : Bool) :
+    Inv (reloadReturned (openBackend s).1 (openBackend s).2 keyOk) := by
+  obtain ⟨wr, x, hw, hx, hc⟩ := h.served_wr
+  have hc := hc hdn
+  have hlt := h.dbi_lt _ _ hw
+  have hwl := h.served_lt
+  have hne : s.backends.length ≠ wr.dbi := by omega
+  -- the state after opening the backend and wrapping it
+  let s1 : St := { s with backends := s.backends ++ [{}],
+                          wrappers := s.wrappers ++ [{ dbi := s.backends.length }] }
+  have hw1 : s1.wrappers[s.served]? = some wr := by
+    show (s.wrappers ++ _)[s.served]? = _
+    rw [List.getElem?_append_left hwl]; exact hw
+  have hx1 : s1.backends[wr.dbi]? = some x := by
+    show (s.backends ++ _)[wr.dbi]? = _
+    rw [List.getElem?_append_left hlt]; exact hx
+  have hv : validate s1 s.wrappers.length = s1 :=
+    validate_eq_self (wr := { dbi := s.backends.length }) (x := {})
+      List.getElem?_concat_length List.getElem?_concat_length rfl rfl
+  have hd : ({ s with backends := s.backends ++ [{}] } : St).wrappers[s.served]? = some wr := hw
+  unfold reloadReturned
+  simp only [openBackend, addWrapper, wrapperDbi_eq hd, ne_eq, hne, not_false_eq_true, if_true]
+  show Inv (if keyOk = true then { destroy (validate s1 s.wrappers.length) s.served with served := s.wrappers.length }
+    else destroy (validate s1 s.wrappers.length) s.wrappers.length)
+  rw [hv]
+  cases keyOk
+  · -- rejected candidate: closed at once
+    simp only [Bool.false_eq_true, if_false]
+    have hwn : s1.wrappers[s.wrappers.length]? = some { dbi := s.backends.length } :=
+      List.getElem?_concat_length
+    have hxn : s1.backends[({ dbi := s.backends.length } : Wrapper).dbi]? = some {} :=
+      List.getElem?_concat_length
+    rw [destroy_eq hwn hxn]
+    have hm : Inv { s with backends := s.backends ++ [{ closes := 1 }] } :=
+      h.open_close rfl rfl rfl rfl rfl rfl
+    refine hm.add_idle (d := s.backends.length) (de := true) (by simp) ?_ ?_ rfl rfl rfl rfl
+    · show (s.wrappers ++ _).set _ _ = _
+      rw [set_append_length]
+    · dsimp only
+      rw [if_pos rfl]
+      show (s.backends ++ _).set _ _ = _
+      rw [set_append_length]
+  · simp only [if_true]
+    rw [destroy_eq hw1 hx1]
+    exact h.switch_like hdn hw hx rfl rfl rfl hdn rfl rfl
+
+
+theorem inv_step {s : St} (h : Inv s) (op : Op) : Inv (step s op) := by
+  cases op with
+  | acquire => exact inv_acquire h
+  | use i => exact inv_use h i
+  | release i => exact inv_release h i
+  | reloadOpenError => exact h
+  | reloadTimeoutDoneNew => exact inv_timeoutDoneNew h
+  | reloadTimeoutPending k => exact inv_timeoutPending h k
+  | lateComplete => exact inv_lateComplete h
+  | shutdown => exact inv_shutdown h
+  | reloadNewOk =>
+    cases hdn : s.down
+    · have := inv_reloadNew h hdn true
+      simpa [step, hdn] using this
+    · simpa [step, hdn] using h
+  | reloadValFailNew =>
+    cases hdn : s.down
+    · have := inv_reloadNew h hdn false
+      simpa [step, hdn] using this
+    · simpa [step, hdn] using h
+  | reloadSameOk =>
+    cases hdn : s.down
+    · have := inv_reloadSame h hdn true
+      simpa [step, hdn] using this
+    · simpa [step, hdn] using h
+  | reloadValFailSame =>
+    cases hdn : s.down
+    · have := inv_reloadSame h hdn false
+      simpa [step, hdn] using this
+    · simpa [step, hdn] using h
+
+theorem inv_foldl {s : St} (h : Inv s) (ops : List Op) : Inv (ops.foldl step s) := by
+  induction ops generalizing s with
+  | nil => exact h
+  | cons op ops ih => exact ih (inv_step h op)
+
+theorem inv_run (ops : List Op) : Inv (run ops) := inv_foldl inv_init ops
+
+/-! ### consequences of the invariant -/
+
+theorem Inv.safe_mem {s : St} (h : Inv s) : ∀ b ∈ s.backends, b.closes ≤ 1 ∧ b.badUses = 0 := by
+  intro b hb
+  obtain ⟨i, hi⟩ := List.mem_iff_getElem?.1 hb
+  exact h.safe i b hi
+
+theorem Inv.live_served {s : St} (h : Inv s) (hdn : s.down = false) :
+    ∃ x, s.backends[wrapperDbi s s.served]? = some x ∧ x.closes = 0 := by
+  obtain ⟨wr, x, hw, hx, hc⟩ := h.served_wr
+  rw [wrapperDbi_eq hw]
+  exact ⟨x, hx, hc hdn⟩
+
+theorem Inv.live_reader {s : St} (h : Inv s) {w : Nat} (hw : w ∈ s.readers) :
+    ∃ x, s.backends[wrapperDbi s w]? = some x ∧ x.closes = 0 := by
+  obtain ⟨wr, x, hw', hx, hc, _⟩ := h.reader_wr hw
+  rw [wrapperDbi_eq hw']
+  exact ⟨x, hx, hc⟩
+
+theorem Inv.prompt {s : St} (h : Inv s) (b : Nat) (x : Backend) (hx : s.backends[b]? = some x)
+    (hns : s.down = true ∨ b ≠ wrapperDbi s s.served)
+    (hnr : ∀ w ∈ s.readers, wrapperDbi s w ≠ b)
+    (hnp : ∀ p ∈ s.pending, p.on ≠ b) : x.closes = 1 := by
+  have hle := (h.safe b x hx).1
+  by_cases h0 : x.closes = 0
+  · exfalso
+    obtain ⟨w, wr, hw, hdb, hH⟩ := h.owned b x hx h0
+    rcases hH with hpos | ⟨hdn, hws⟩
+    · rw [h.rc w wr hw] at hpos
+      unfold cnt at hpos
+      have : 0 < s.readers.count w ∨ 0 < (s.pending.map (·.w)).count w := by omega
+      rcases this with hr | hp
+      · have hm := List.count_pos_iff.1 hr
+        exact hnr w hm (by rw [wrapperDbi_eq hw]; exact hdb)
+      · have hm := List.count_pos_iff.1 hp
+        obtain ⟨p, hp1, hp2⟩ := List.mem_map.1 hm
+        obtain ⟨wr0, h3, h4⟩ := h.pending_ok p hp1
+        have hp2 : p.w = w := hp2
+        rw [hp2, hw] at h3
+        cases h3
+        exact hnp p hp1 (by rw [h4]; exact hdb)
+    · rcases hns with hd | hne
+      · rw [hd] at hdn; cases hdn
+      · subst hws
+        rw [wrapperDbi_eq hw] at hne
+        exact hne hdb.symm
+  · omega
 
 end DnsVerif.Life
